@@ -35,7 +35,18 @@ VMs, deletes, 1..300 repeated executes.  Oracles (= the property), all on the re
   (3) sp after = sp before (first call: = sp when code_entry was reached); peak sp of a call <= peak of
       the first such call on a fresh VM;
   (4) an operation changes the digest of no program / VM it does not name;
-  (5) no sanitizer report, no crash, no exit that stack exhaustion on a neutral stack would not explain.
+  (5) no sanitizer report, no crash, no exit that stack exhaustion on a neutral stack would not explain;
+  (6) for the pool programs whose meaning is obvious from the text (counter, pure, faults, churn) a tiny reference
+      semantics in this file says what each call has to give after the earlier calls on that VM (catches a result
+      copied from the wrong slot, which every replay would reproduce faithfully).
+Violation keys (stable): execute:sp-leak-per-call, execute:sp-leak-after-error, execute:after-failed-global-init,
+execute:reinitialises-globals, execute:relative-stack-use-grows, execute:peak-exceeds-first-call,
+execute:differs-from-fresh-vm-replay:{result,output,diagnostic}, execute:pure-call-differs-from-first-call:*,
+execute:call-differs-from-primed-fresh-vm:*, execute:runtime-message-names-last-compiled-source,
+execute:result-differs-from-reference-semantics, execute:unexplained-exit, compile:ret-depends-on-history,
+compile:line_no-not-reset, compile:diagnostics-depend-on-history, compile:code-depends-on-history,
+compile_file:missing-file-diagnostic-depends-on-history, isolation:<op>-changes-other-{program,vm},
+sanitizer:<kind>:<first library frame>[:freed-by-<who>], crash:rc=<n>.  Every violation carries the shrunk history.
 Model correspondence: the extracted Api model (build/ocaml/api/run), its `exec` instantiated by replaying
 the observed per-call outcome classes and relative peaks, must predict initialized, sp before/after every
 call, the absolute peak and which call kills the process, under the measured policy.
